@@ -68,8 +68,13 @@ def handleObs (x impl : Json) : R Reply := do
               else explainObservation ctx limits adv o len accepts ++ (if accepts then "" else s!" ({peerErr})")),
            nontrivial := decide (o.performable.length + o.proposals.length + o.blockHistory.length ≥ 2), tags := tags }
 
-def handleRound (x impl : Json) : R Reply := do
+def handleRound (input x impl : Json) : R Reply := do
   let rd ← decode x
+  -- the instances' effective report configuration (after `ensureMinimumDefaults`); absent in old corpus lines: batch 1
+  let cfgJ := fieldD input "cfg" .null
+  let cfg : C04.Cfg ← match cfgJ with
+    | .null => pure { batch := 1, gasLimit := 5300000, overhead := 300000 }
+    | j => pure { batch := ← natF j "batch", gasLimit := ← natF j "gasLimit", overhead := ← natF j "overhead" }
   let adv ← advertised (← field impl "limits")
   let want := modelOutcome rd
   let err := (fieldD impl "err" (.str "")).getStr?.toOption.getD ""
@@ -110,21 +115,32 @@ def handleRound (x impl : Json) : R Reply := do
         reports := ← natF impl "reports", quorum := ← listOf asBool (fieldD impl "quorum" .null) }
     let rfm : RoundFacts := { rf with outcome := want }
     let ok := roundOk rd.ctx limits adv rd.ctx.F rf && advertisedIsGen adv && decide (rf.quorum.length = rd.n + 1)
-    let agree := decide (got = want) && decide (wantLen = len) && obsAgree
+    -- the model of `Reports` (C04) on the implementation's agreed performables must produce as many reports
+    let wantReports := (C04.reports cfg got.agreed).length
+    let agree := decide (got = want) && decide (wantLen = len) && obsAgree && decide (wantReports = rf.reports)
     let tags := roundTags rd want ++
       (if decide (2 * len ≥ adv.maxOutcomeLength) then ["outcome>=half-limit"] else []) ++
       (if decide (rf.reports = adv.maxReportCount) then ["100-reports"] else []) ++
       (if decide (rf.reports > 1) then ["several-reports"] else []) ++
+      (if decide (cfg.batch > 1) then ["batch>1"] else []) ++
+      (if decide (cfg.batch > 1) && decide (rf.reports * cfg.batch ≥ got.agreed.length + cfg.batch) then ["reports-not-densely-packed"] else []) ++
+      (if decide (rf.reports > (Gen.outcomeAgreedPerformablesLimit + cfg.batch - 1) / cfg.batch) then ["reports>ceil(100/batch)"] else []) ++
+      (if !decide ((got.agreed.map (·.upkeepID)).Nodup) then ["several-results-of-one-upkeep-agreed"] else []) ++
+      (if decide ((tally rd.ctx (validObs rd.ctx limits rd.obs)).filter (fun s => decide (s.count ≥ rd.ctx.F + 1)) |>.map (·.result.workID) |>.Nodup) then [] else ["split-vote:two-quorum-variants-of-one-work"]) ++
       (if rd.obs.any (fun o => match o with | some o => decide (o.performable.length = limits.obsPerformables) | none => false) then ["obs-100-performables"] else []) ++
       (if decide (rd.obs.length = 2 * rd.ctx.F + 1) then ["exactly-2f+1-observations"] else [])
     pure { agree := agree, specModel := roundOk rd.ctx limits adv rd.ctx.F rfm, specImpl := ok && obsOk,
            diff := if agree then "" else
              (if !obsAgree then obsDiff
+              else if !decide (wantReports = rf.reports) then s!"reports: model {wantReports} impl {rf.reports}"
               else if decide (got = want) then s!"outcome length: formula {wantLen} measured {len}"
               else s!"model: {showOutcome want} impl: {showOutcome got}"),
            fail := if ok && obsOk then "" else
              (if !obsOk then obsFail
-              else if !advertisedIsGen adv then "advertised limits differ from the constants in observation.go/outcome.go"
+              else if !decide (rf.reports ≤ adv.maxReportCount) then
+                s!"more reports than the advertised MaxReportCount: {rf.reports} reports, this instance advertises {adv.maxReportCount} (batch size {cfg.batch})"
+              else if !advertisedIsGen adv then
+                s!"advertised limits differ from the constants in observation.go/outcome.go: MaxReportCount {adv.maxReportCount} (constant {Gen.maxReportCount}), MaxObservationLength {adv.maxObservationLength}, MaxOutcomeLength {adv.maxOutcomeLength}"
               else if !decide (rf.quorum.length = rd.n + 1) then "quorum table incomplete"
               else explainRound rd.ctx limits adv rd.ctx.F rf),
            nontrivial := decide ((validObs rd.ctx limits rd.obs).flatMap (·.performable) ≠ []) || rd.hasPrev,
@@ -134,7 +150,7 @@ def handle (input impl : Json) : R Reply := do
   let x ← field input "x"
   match ← strF input "kind" with
   | "obs" => handleObs x impl
-  | "round" => handleRound x impl
+  | "round" => handleRound input x impl
   | k => throw s!"C03: unknown case kind {k}"
 
 end AutoVerif.C03
